@@ -75,6 +75,9 @@ pub const PLANNER_ONLY: &[(&str, &str)] = &[
     ("now", "simplified to a literal at planning time"),
     ("current_date", "simplified to a literal at planning time"),
     ("current_time", "simplified to a literal at planning time"),
+    ("coalesce", "simplified to CASE at planning time"),
+    ("nvl2", "simplified to CASE at planning time"),
+    ("nvl", "delegates to coalesce: simplified to CASE at planning time"),
 ];
 
 #[derive(Clone, Debug, Serialize, Deserialize)]
@@ -338,6 +341,8 @@ enum Hint {
     Count,
     /// small signed integer
     SmallInt,
+    /// non-null field / key name
+    FieldName,
 }
 
 fn hint(name: &str, pos: usize, t: &Ty) -> Hint {
@@ -369,6 +374,8 @@ fn hint(name: &str, pos: usize, t: &Ty) -> Hint {
         ("make_date" | "make_time", _) if i => Hint::SmallInt,
         ("make_date" | "make_time", _) if s => Hint::NumStr,
         ("date_bin", _) => Hint::None,
+        ("named_struct", p) if s && p % 2 == 0 => Hint::FieldName,
+        ("with_metadata", p) if s && p >= 1 => Hint::FieldName,
         _ => Hint::None,
     }
 }
@@ -393,6 +400,7 @@ fn hinted_value(h: Hint, t: &Ty) -> Option<BoxedStrategy<V>> {
             }
         }
         Hint::Separator => pick(SEPARATORS),
+        Hint::FieldName => pick(&["a", "b", "c", "key", "x y", "A"]),
         Hint::ArrayStr => pick(ARRAY_STRINGS),
         Hint::Count => match t {
             Ty::U64 => (0u64..12).prop_map(V::U).boxed(),
@@ -423,6 +431,9 @@ fn arg_value(name: &str, pos: usize, t: &Ty) -> BoxedStrategy<V> {
     let h = hint(name, pos, t);
     let base: BoxedStrategy<V> = match hinted_value(h, t) {
         Some(hv) => {
+            if matches!(h, Hint::FieldName) {
+                return hv;
+            }
             if matches!(h, Hint::Count | Hint::SmallInt) {
                 // bounded-size hints are hard limits
                 hv
@@ -468,7 +479,27 @@ fn case_strategy(tier: Tier) -> BoxedStrategy<Case> {
             let alt = (prop::collection::vec(0u8..4, n), prop::collection::vec(any::<bool>(), n), any::<bool>(), 0u8..4, 0u8..4, 1u8..6).prop_map(|(enc, scalar_mask, dict_small_keys, pad_front, pad_back, split_k)| Alt { enc, scalar_mask, dict_small_keys, pad_front, pad_back, split_k });
             (Just(name), Just(types), cols, Just(rows), alt)
         })
-        .prop_map(|(func, types, cols, rows, alt)| Case { func, types, cols, rows, alt })
+        .prop_map(|(func, types, mut cols, rows, alt)| {
+            if func == "map" && cols.len() == 2 {
+                // map(keys, values): per row lists of equal length, keys non-NULL and distinct
+                for r in 0..rows {
+                    let keys = cols[0][r].clone();
+                    if let (V::L(ks), V::L(vs)) = (&keys, &cols[1][r].clone()) {
+                        let mut uniq: Vec<V> = vec![];
+                        for k in ks {
+                            if !k.is_null() && !uniq.contains(k) {
+                                uniq.push(k.clone());
+                            }
+                        }
+                        let mut vals = vs.clone();
+                        vals.resize(uniq.len(), V::Null);
+                        cols[0][r] = V::L(uniq);
+                        cols[1][r] = V::L(vals);
+                    }
+                }
+            }
+            Case { func, types, cols, rows, alt }
+        })
         .boxed()
 }
 
@@ -651,7 +682,11 @@ impl Property for C32 {
     }
 
     fn run(&self, case: &Case) -> CaseResult {
-        run_case(case)
+        run_cached(case)
+    }
+
+    fn known_signature(&self, case: &Case) -> Option<String> {
+        known_sig(case)
     }
 
     fn extra(&self, _tier: Tier, _seed: u64) -> Result<Value, (String, Case)> {
@@ -682,8 +717,39 @@ impl Property for C32 {
 /// functions known to have no successful evaluation with the generated types, with the reason
 pub const STARVED_OK: &[(&str, &str)] = &[];
 
-fn build_arg(vals: &[V], t: &Ty) -> Result<ArrayRef, String> {
-    to_array(vals, t)
+/// Signature of a failing case: `<function>:<kind>` where kind is the representation (or contract clause)
+/// that disagrees. Entries of /verif/known_findings.json with such a signature exclude exactly the cases of
+/// that function failing in that way (the case is evaluated to find out; the result is cached for `run`).
+fn known_sig(case: &Case) -> Option<String> {
+    let r = run_cached(case);
+    match &r.outcome {
+        Outcome::Violation(m) => m.strip_prefix("[sig=").and_then(|rest| rest.split(']').next()).map(|s| s.to_string()),
+        _ => None,
+    }
+}
+
+thread_local! {
+    static LAST: std::cell::RefCell<Option<(u64, CaseResult)>> = const { std::cell::RefCell::new(None) };
+}
+
+fn run_cached(case: &Case) -> CaseResult {
+    let fp = serde_json::to_vec(case).map(|b| fnv1a(&b)).unwrap_or(0);
+    if let Some(r) = LAST.with(|l| l.borrow().as_ref().filter(|(f, _)| *f == fp).map(|(_, r)| r.clone())) {
+        return r;
+    }
+    let r = run_case(case);
+    LAST.with(|l| *l.borrow_mut() = Some((fp, r.clone())));
+    r
+}
+
+/// which representation a `check` message is about
+fn kind_of(msg: &str) -> &'static str {
+    for k in ["scalars", "encoding", "dict", "sliced"] {
+        if msg.starts_with(k) {
+            return k;
+        }
+    }
+    "contract"
 }
 
 fn run_case(case: &Case) -> CaseResult {
@@ -701,32 +767,80 @@ fn run_case(case: &Case) -> CaseResult {
     bump(name, 0, 1);
     let mut labels: Vec<String> = vec![];
     let constant: Vec<bool> = case.cols.iter().map(|c| c.iter().all(|v| *v == c[0])).collect();
-
-    // baseline
-    let mut base_args = vec![];
-    for (c, t) in case.cols.iter().zip(case.types.iter()) {
-        match build_arg(c, t) {
-            Ok(a) => base_args.push(Arg::Array(a)),
-            Err(e) => return CaseResult::discard(format!("cannot build argument: {}", truncate(&e, 60))),
-        }
-    }
-    let base = evaluate(udf, &base_args, rows);
+    let const_idx: Vec<usize> = (0..n).filter(|i| constant[*i]).collect();
     let sig = format!("{name}({})", case.types.iter().map(|t| t.short()).collect::<Vec<_>>().join(","));
     macro_rules! violation {
-        ($($arg:tt)*) => {
-            return CaseResult::violation(format!("{sig}: {}", format!($($arg)*))).labels(labels.clone())
+        ($kind:expr, $($arg:tt)*) => {
+            return CaseResult::violation(format!("[sig={name}:{}] {sig}: {}", $kind, format!($($arg)*))).labels(labels.clone())
         };
     }
+
+    // Arguments for rows lo..hi with array types `tv`; arguments in `scalar_set` are passed as scalars of their
+    // logical (case) type; `slice` = (front, back) padding for sliced arrays.
+    let make_args = |tv: &[Ty], lo: usize, hi: usize, scalar_set: &[usize], slice: Option<(usize, usize)>| -> Result<Vec<Arg>, String> {
+        let mut args = vec![];
+        for i in 0..n {
+            let c = &case.cols[i];
+            if scalar_set.contains(&i) {
+                let st = match &tv[i] {
+                    Ty::Dict(_, inner) => inner.as_ref(),
+                    t => t,
+                };
+                args.push(Arg::Scalar(to_scalar(&c[0], st)));
+                continue;
+            }
+            let a = match slice {
+                None => to_array(&c[lo..hi], &tv[i])?,
+                Some((pf, pb)) => {
+                    let front: Vec<V> = c.iter().rev().cycle().take(pf).cloned().collect();
+                    let back: Vec<V> = c.iter().cycle().take(pb).cloned().collect();
+                    to_sliced_array(&c[lo..hi], &tv[i], &front, &back)?
+                }
+            };
+            args.push(Arg::Array(a));
+        }
+        Ok(args)
+    };
+    let eval_with = |tv: &[Ty], lo: usize, hi: usize, scalar_set: &[usize], slice: Option<(usize, usize)>| -> Result<Evaluated, EvalErr> {
+        let args = make_args(tv, lo, hi, scalar_set, slice).map_err(EvalErr::Plan)?;
+        evaluate(udf, &args, hi - lo)
+    };
+
+    // ---- reference: all arrays; when that is rejected, the constant arguments as scalars (functions that
+    // only take some argument as a constant)
+    let base = eval_with(&case.types, 0, rows, &[], None);
+    if let Err(EvalErr::Plan(m)) = &base {
+        if m.starts_with("iter_to_array") || m.contains("cast") {
+            return CaseResult::discard(format!("cannot build argument: {}", truncate(m, 60)));
+        }
+    }
     match &base {
-        Err(EvalErr::Contract(m)) => violation!("baseline (all arrays): {m}"),
+        Err(EvalErr::Contract(m)) => violation!("contract", "baseline (all arrays): {m}"),
         Err(EvalErr::Panic(m)) => labels.push(format!("panic:fn={name}:{}", truncate(m, 40))),
         _ => {}
     }
+    let mut ref_scalars: Vec<usize> = vec![];
+    let mut reference: Result<Evaluated, EvalErr> = base;
+    let mut ref_name = "all arrays";
+    if reference.is_err() && !const_idx.is_empty() {
+        let r2 = eval_with(&case.types, 0, rows, &const_idx, None);
+        match &r2 {
+            Err(EvalErr::Contract(m)) => violation!("contract", "constant arguments as scalars: {m}"),
+            Ok(_) => {
+                reference = r2;
+                ref_scalars = const_idx.clone();
+                ref_name = "constant arguments as scalars";
+                labels.push("reference=scalars".into());
+            }
+            _ => {}
+        }
+    }
+    let base_is_ref = ref_scalars.is_empty();
 
     let mut compared = 0u64;
     let mut accepted_alts = 0u64;
-    // compare helper
     let mut check = |what: &str, alt: Result<Evaluated, EvalErr>, labels: &mut Vec<String>| -> Result<(), String> {
+        let short = what.split(' ').next().unwrap_or(what).to_string();
         match alt {
             Err(EvalErr::Contract(m)) => Err(format!("{what}: {m}")),
             Err(EvalErr::Panic(m)) => {
@@ -734,17 +848,17 @@ fn run_case(case: &Case) -> CaseResult {
                 Ok(())
             }
             Err(_) => {
-                labels.push(format!("alt-rejected:{}", what.split(' ').next().unwrap_or(what)));
+                labels.push(format!("alt-rejected:{}", short.split('=').next().unwrap_or("")));
                 Ok(())
             }
             Ok(a) => {
                 accepted_alts += 1;
-                if let Ok(b) = &base {
+                if let Ok(b) = &reference {
                     compared += 1;
                     if a.rendered != b.rendered {
                         let i = (0..rows).find(|i| a.rendered[*i] != b.rendered[*i]).unwrap_or(0);
                         return Err(format!(
-                            "{what}: row {i} differs: baseline (all arrays) = {} [{}], {what} = {} [{}]; arguments of that row: {:?}",
+                            "{what}: row {i} differs: reference ({ref_name}) = {} [{}], {what} = {} [{}]; arguments of that row: {:?}",
                             b.rendered[i],
                             b.result_type,
                             a.rendered[i],
@@ -752,7 +866,7 @@ fn run_case(case: &Case) -> CaseResult {
                             case.cols.iter().map(|c| &c[i]).collect::<Vec<_>>()
                         ));
                     }
-                    labels.push(format!("alt:{}", what.split(' ').next().unwrap_or(what)));
+                    labels.push(format!("alt:{short}"));
                 }
                 Ok(())
             }
@@ -760,11 +874,11 @@ fn run_case(case: &Case) -> CaseResult {
     };
 
     // ---- scalars
-    let const_idx: Vec<usize> = (0..n).filter(|i| constant[*i]).collect();
-    let scalar_of = |i: usize| -> ScalarValue { to_scalar(&case.cols[i][0], &case.types[i]) };
     let mut scalar_sets: Vec<(String, Vec<usize>)> = vec![];
     if !const_idx.is_empty() {
-        scalar_sets.push(("scalars=all-constant".into(), const_idx.clone()));
+        if base_is_ref {
+            scalar_sets.push(("scalars=all-constant".into(), const_idx.clone()));
+        }
         if const_idx.len() >= 2 {
             for i in &const_idx {
                 scalar_sets.push((format!("scalars=one arg {i}"), vec![*i]));
@@ -776,13 +890,12 @@ fn run_case(case: &Case) -> CaseResult {
         }
     }
     for (what, set) in scalar_sets {
-        let args: Vec<Arg> = (0..n).map(|i| if set.contains(&i) { Arg::Scalar(scalar_of(i)) } else { base_args[i].clone() }).collect();
-        if let Err(e) = check(&what, evaluate(udf, &args, rows), &mut labels) {
-            violation!("{e}");
+        if let Err(e) = check(&what, eval_with(&case.types, 0, rows, &set, None), &mut labels) {
+            violation!(kind_of(&e), "{e}");
         }
     }
 
-    // ---- string / binary encodings
+    // ---- string / binary encodings and dictionaries
     let mut enc_sets: Vec<(String, Vec<Ty>)> = vec![];
     for f in 1u8..=3 {
         let tv: Vec<Ty> = case.types.iter().map(|t| flavour(t, f)).collect();
@@ -794,7 +907,6 @@ fn run_case(case: &Case) -> CaseResult {
     if mixed != case.types && !enc_sets.iter().any(|(_, tv)| *tv == mixed) {
         enc_sets.push(("encoding=mixed".into(), mixed));
     }
-    // ---- dictionaries
     for i in 0..n {
         if dictable(&case.types[i]) {
             let mut tv = case.types.clone();
@@ -806,125 +918,88 @@ fn run_case(case: &Case) -> CaseResult {
         enc_sets.push(("dict=all".into(), case.types.iter().map(|t| Ty::Dict(case.alt.dict_small_keys, Box::new(t.clone()))).collect()));
     }
     for (what, tv) in enc_sets {
-        if !is_fixpoint(udf, &tv) {
+        let is_dict = what.starts_with("dict");
+        // dictionaries never reach a function as literals: with constants as scalars only the array arguments change
+        let eff: Vec<Ty> = if is_dict { (0..n).map(|i| if ref_scalars.contains(&i) { case.types[i].clone() } else { tv[i].clone() }).collect() } else { tv.clone() };
+        if eff == case.types {
+            continue;
+        }
+        if !is_fixpoint(udf, &eff) {
             labels.push(format!("alt-coerced-away:{}", what.split('=').next().unwrap_or("")));
             continue;
         }
-        let mut args = vec![];
-        let mut ok = true;
-        for (c, t) in case.cols.iter().zip(tv.iter()) {
-            match build_arg(c, t) {
-                Ok(a) => args.push(Arg::Array(a)),
-                Err(_) => {
-                    ok = false;
-                    break;
-                }
-            }
+        let desc = format!("{what} {:?}", eff.iter().map(|t| t.short()).collect::<Vec<_>>());
+        if let Err(e) = check(&desc, eval_with(&eff, 0, rows, &ref_scalars, None), &mut labels) {
+            violation!(kind_of(&e), "{e}");
         }
-        if !ok {
-            continue;
-        }
-        if let Err(e) = check(&format!("{what} {:?}", tv.iter().map(|t| t.short()).collect::<Vec<_>>()), evaluate(udf, &args, rows), &mut labels) {
-            violation!("{e}");
-        }
-        // the same encoding with constant arguments as scalars
-        if !const_idx.is_empty() && what.starts_with("encoding") {
-            let args2: Vec<Arg> = (0..n).map(|i| if constant[i] { Arg::Scalar(to_scalar(&case.cols[i][0], &tv[i])) } else { args[i].clone() }).collect();
-            if let Err(e) = check(&format!("{what}+scalars {:?}", tv.iter().map(|t| t.short()).collect::<Vec<_>>()), evaluate(udf, &args2, rows), &mut labels) {
-                violation!("{e}");
+        // the same encoding with all constant arguments as scalars
+        if base_is_ref && !const_idx.is_empty() && !is_dict {
+            let desc = format!("{what}+scalars {:?}", eff.iter().map(|t| t.short()).collect::<Vec<_>>());
+            if let Err(e) = check(&desc, eval_with(&eff, 0, rows, &const_idx, None), &mut labels) {
+                violation!(kind_of(&e), "{e}");
             }
         }
     }
 
     // ---- sliced
-    if n > 0 {
+    if n > ref_scalars.len() {
         let pf = case.alt.pad_front as usize + 1;
         let pb = case.alt.pad_back as usize;
-        let mut args = vec![];
-        let mut ok = true;
-        for (c, t) in case.cols.iter().zip(case.types.iter()) {
-            let front: Vec<V> = c.iter().rev().cycle().take(pf).cloned().collect();
-            let back: Vec<V> = c.iter().cycle().take(pb).cloned().collect();
-            match to_sliced_array(c, t, &front, &back) {
-                Ok(a) => args.push(Arg::Array(a)),
-                Err(_) => {
-                    ok = false;
-                    break;
-                }
-            }
-        }
-        if ok {
-            if let Err(e) = check(&format!("sliced offset {pf} tail {pb}"), evaluate(udf, &args, rows), &mut labels) {
-                violation!("{e}");
-            }
+        if let Err(e) = check(&format!("sliced offset {pf} tail {pb}"), eval_with(&case.types, 0, rows, &ref_scalars, Some((pf, pb))), &mut labels) {
+            violation!(kind_of(&e), "{e}");
         }
     }
 
-    // ---- split into pieces
-    let piece = |lo: usize, hi: usize| -> Result<Evaluated, EvalErr> {
-        let mut args = vec![];
-        for (c, t) in case.cols.iter().zip(case.types.iter()) {
-            match build_arg(&c[lo..hi], t) {
-                Ok(a) => args.push(Arg::Array(a)),
-                Err(e) => return Err(EvalErr::Plan(e)),
-            }
-        }
-        evaluate(udf, &args, hi - lo)
-    };
-    let mut rowwise: Vec<Result<Evaluated, EvalErr>> = vec![];
+    // ---- split into pieces (same scalar-ness as the reference)
     if rows >= 2 {
-        for i in 0..rows {
-            rowwise.push(piece(i, i + 1));
-        }
+        let rowwise: Vec<Result<Evaluated, EvalErr>> = (0..rows).map(|i| eval_with(&case.types, i, i + 1, &ref_scalars, None)).collect();
         for r in &rowwise {
             if let Err(EvalErr::Contract(m)) = r {
-                violation!("1-row batch: {m}");
+                violation!("contract", "1-row batch: {m}");
             }
         }
-        let all_ok = rowwise.iter().all(|r| r.is_ok());
-        if all_ok {
+        if rowwise.iter().all(|r| r.is_ok()) {
             accepted_alts += 1;
             let per_row: Vec<String> = rowwise.iter().map(|r| r.as_ref().map(|e| e.rendered[0].clone()).unwrap_or_default()).collect();
-            match &base {
+            match &reference {
                 Ok(b) => {
                     compared += 1;
                     if b.rendered != per_row {
                         let i = (0..rows).find(|i| b.rendered[*i] != per_row[*i]).unwrap_or(0);
-                        violation!("row {i} evaluated alone gives {} but inside the {rows}-row batch {}; arguments of that row: {:?}", per_row[i], b.rendered[i], case.cols.iter().map(|c| &c[i]).collect::<Vec<_>>());
+                        violation!("split-rows", "row {i} evaluated alone gives {} but inside the {rows}-row batch {} ({ref_name}); arguments of that row: {:?}", per_row[i], b.rendered[i], case.cols.iter().map(|c| &c[i]).collect::<Vec<_>>());
                     }
                     labels.push("alt:split-rows".into());
                 }
                 Err(EvalErr::NotImpl(_)) | Err(EvalErr::Plan(_)) => labels.push("rowwise-ok-but-batch-rejected-cleanly".into()),
-                Err(EvalErr::Panic(m)) => violation!("every row evaluates successfully alone but the {rows}-row batch panics: {m}"),
-                Err(EvalErr::Exec(m)) => violation!("every row evaluates successfully alone but the {rows}-row batch fails: {m}"),
+                Err(EvalErr::Panic(m)) => violation!("rows-ok-batch-fails", "every row evaluates successfully alone but the {rows}-row batch panics: {m}"),
+                Err(EvalErr::Exec(m)) => violation!("rows-ok-batch-fails", "every row evaluates successfully alone but the {rows}-row batch fails: {m}"),
                 Err(EvalErr::Contract(_)) => {}
             }
         } else {
             labels.push("rowwise:some-row-fails".into());
         }
-        // k-row pieces
         if rows >= 3 {
             let k = (case.alt.split_k as usize).clamp(2, rows - 1);
             let mut parts: Vec<Result<Evaluated, EvalErr>> = vec![];
             let mut lo = 0;
             while lo < rows {
                 let hi = (lo + k).min(rows);
-                parts.push(piece(lo, hi));
+                parts.push(eval_with(&case.types, lo, hi, &ref_scalars, None));
                 lo = hi;
             }
             for r in &parts {
                 if let Err(EvalErr::Contract(m)) = r {
-                    violation!("{k}-row pieces: {m}");
+                    violation!("contract", "{k}-row pieces: {m}");
                 }
             }
             if parts.iter().all(|r| r.is_ok()) {
                 accepted_alts += 1;
-                if let Ok(b) = &base {
+                if let Ok(b) = &reference {
                     compared += 1;
                     let joined: Vec<String> = parts.iter().flat_map(|r| r.as_ref().map(|e| e.rendered.clone()).unwrap_or_default()).collect();
                     if joined != b.rendered {
                         let i = (0..rows).find(|i| b.rendered[*i] != joined[*i]).unwrap_or(0);
-                        violation!("row {i} evaluated in {k}-row pieces gives {} but inside the {rows}-row batch {}; arguments of that row: {:?}", joined[i], b.rendered[i], case.cols.iter().map(|c| &c[i]).collect::<Vec<_>>());
+                        violation!("split-k", "row {i} evaluated in {k}-row pieces gives {} but inside the {rows}-row batch {} ({ref_name}); arguments of that row: {:?}", joined[i], b.rendered[i], case.cols.iter().map(|c| &c[i]).collect::<Vec<_>>());
                     }
                     labels.push("alt:split-k".into());
                 }
@@ -933,29 +1008,32 @@ fn run_case(case: &Case) -> CaseResult {
     }
 
     bump(name, 3, compared);
-    let base_ok = base.is_ok();
-    let nt = match &base {
+    let nt = match &reference {
         Ok(b) => b.non_null >= 1 && compared >= 1,
         Err(_) => false,
     };
-    if base_ok {
-        bump(name, 1, 1);
-        labels.push(format!("fn={name}"));
-        if let Ok(b) = &base {
+    match &reference {
+        Ok(b) => {
+            bump(name, 1, 1);
+            labels.push(format!("fn={name}"));
             labels.push(format!("result={}", logical_type(&b.result_type).split('<').next().unwrap_or("").split('(').next().unwrap_or("")));
             if b.non_null == 0 {
-                labels.push("baseline:all-null".into());
+                labels.push("reference:all-null".into());
             }
         }
-    } else {
-        match &base {
-            Err(EvalErr::Plan(_)) => labels.push("baseline:plan-error".into()),
-            Err(EvalErr::NotImpl(_)) => labels.push("baseline:not-implemented".into()),
-            Err(EvalErr::Exec(_)) => labels.push("baseline:exec-error".into()),
-            _ => {}
-        }
-        if accepted_alts > 0 {
-            labels.push("baseline-failed-but-alt-ok".into());
+        Err(e) => {
+            if std::env::var("C32_DEBUG").map(|d| d == name).unwrap_or(false) {
+                eprintln!("DEBUG {sig}: {e:?}");
+            }
+            match e {
+                EvalErr::Plan(_) => labels.push("reference:plan-error".into()),
+                EvalErr::NotImpl(_) => labels.push("reference:not-implemented".into()),
+                EvalErr::Exec(_) => labels.push("reference:exec-error".into()),
+                _ => {}
+            }
+            if accepted_alts > 0 {
+                labels.push("reference-failed-but-alt-ok".into());
+            }
         }
     }
     if nt {
